@@ -3,14 +3,19 @@
    parameters (n, t, V; p = the field of the model witness) and the ENVIRONMENT's moves -- which node starts when
    (with the model polynomials it picks: a witness that only the trace spec uses, the real node draws its own), which
    batch the transport delivers when, and when a node that holds all inputs of a round gets its transport call
-   answered, and (MaxRedel > 0) which already delivered batch the transport delivers AGAIN.  What the nodes compute is the implementation's business.  Printed when every node has its result.
+   answered, (MaxRedel > 0) which already delivered batch the transport delivers AGAIN, and (MaxFault > 0) which node's
+   send step of which round is hit by a FAILING send (the concrete send and error are drawn by checks/c11.py).  What the
+   nodes compute is the implementation's business -- including whether a node whose send failed gives up (the recorded
+   trace then ends there) or tries again: the schedule continues as the transport contract allows for a node that
+   carries on.  Printed when every node has its result.
    Run with -simulate (the polynomials are drawn with RandomElement). *)
 EXTENDS Frost, Json
-CONSTANTS GenP, MinN, MaxN, MaxV, MaxRedel
+CONSTANTS GenP, MinN, MaxN, MaxV, MaxRedel, MaxFault
 VARIABLE hist
 GenInit == \E n \in MinN..MaxN, nv \in 1..MaxV : \E t \in 2..n :
              /\ InitWith(n, t, nv, GenP)
              /\ hist = <<[ev |-> "Cfg", n |-> n, t |-> t, V |-> nv, p |-> GenP]>>
+NFault == Cardinality({x \in Nodes \X {1, 2} : x[2] \in flt[x[1]]})
 RandPoly == [v \in Vals |-> [k \in 1..par.t |-> RandomElement(Zp)]]
 AsSeq(c) == [v \in 1..par.nv |-> c[v - 1]]
 GenNext ==
@@ -20,6 +25,8 @@ GenNext ==
   \/ \E i, j \in Nodes : Deliver2(i, j) /\ hist' = Append(hist, [ev |-> "D2", i |-> i, j |-> j])
   \/ (redel < MaxRedel /\ \E i, j \in Nodes : \E k \in Kinds :
         Redeliver(i, j, k) /\ hist' = Append(hist, [ev |-> "RD", i |-> i, j |-> j, k |-> k]))
+  \/ (NFault < MaxFault /\ \E i \in Nodes : \E r \in {1, 2} :
+        Fault(i, r) /\ hist' = Append(hist, [ev |-> "Fault", i |-> i, r |-> r]))
   \/ \E j \in Nodes : Ret1(j) /\ hist' = Append(hist, [ev |-> "Ret1", j |-> j])
   \/ \E j \in Nodes : Ret2(j) /\ hist' = Append(hist, [ev |-> "Ret2", j |-> j])
 GenSpec == GenInit /\ [][GenNext]_<<vars, hist>>
